@@ -1,4 +1,167 @@
-From OV Require Import Common.Base C17.Model C17.Proofs.
-Theorem C17_shard_in_range : forall k, (shard_for k < 16)%N.
-Proof. exact shard_for_lt. Qed.
-Print Assumptions C17_shard_in_range.
+(* C17/Properties.v — the property theorems only.  Each is closed by [exact] of a lemma from
+   Proofs.v / Atomic.v / Linearizable.v and followed by Print Assumptions. *)
+From OV Require Import Common.Base C17.Model C17.Proofs C17.Atomic C17.Linearizable.
+
+(* The sharded table (16 association lists selected by shardFor) answers every sequential history
+   of Claim/Release/IsOwner/Lookup exactly as ONE flat partial map from tuples to owners does:
+   sharding is unobservable, colliding and non-colliding tuples never interfere. *)
+Theorem C17_refines_flat_spec :
+  forall ops,
+    snd (reg_run new_registry ops) = snd (spec_run spec_empty ops) /\
+    forall k, reg_get (fst (reg_run new_registry ops)) k = fst (spec_run spec_empty ops) k.
+Proof. exact refines_spec. Qed.
+Print Assumptions C17_refines_flat_spec.
+
+(* After any history: a tuple is stored at most once in the whole table (and Lookup returns that
+   entry); two sessions that both pass IsOwner for a tuple are the same session; IsOwner agrees
+   with Lookup. *)
+Theorem C17_single_owner :
+  forall ops,
+    let r := fst (reg_run new_registry ops) in
+    (forall k i j v w, In (k, v) (nth i r []) -> In (k, w) (nth j r []) -> i = j /\ v = w /\ lookup r k = Some v) /\
+    (forall k o1 o2, is_owner r k o1 = true -> is_owner r k o2 = true -> same_id o1 o2 = true) /\
+    (forall k o, is_owner r k o = true <-> exists cur, lookup r k = Some cur /\ same_id cur o = true).
+Proof. exact single_owner. Qed.
+Print Assumptions C17_single_owner.
+
+(* A claim returns an owner exactly when the tuple was owned by a different session, and it
+   returns that session. *)
+Theorem C17_claim_reports_iff :
+  forall r k o p,
+    snd (reg_step r (OClaim k o)) = ROwner p <-> (lookup r k = Some p /\ same_id p o = false).
+Proof. exact claim_reports_iff. Qed.
+Print Assumptions C17_claim_reports_iff.
+
+(* Displacement: when, after any history, Claim(k, o) reports p, then p was the stored owner, o is
+   the owner afterwards, p no longer is, and in every continuation in which p's session does not
+   claim k again no claim on k ever reports p's session again (reported once, not twice). *)
+Theorem C17_displaced_reported_once :
+  forall pre k o p post,
+    let r1 := fst (reg_run new_registry pre) in
+    let r2 := fst (reg_step r1 (OClaim k o)) in
+    snd (reg_step r1 (OClaim k o)) = ROwner p ->
+    lookup r1 k = Some p /\ same_id p o = false /\
+    lookup r2 k = Some o /\ is_owner r2 k p = false /\
+    (forallb (fun x => negb (claim_by k p x)) post = true ->
+     forallb (fun ox => negb (reports k p (fst ox) (snd ox))) (combine post (snd (reg_run r2 post))) = true).
+Proof. exact displaced_reported_once. Qed.
+Print Assumptions C17_displaced_reported_once.
+
+(* Accounting over a whole history, per tuple: every tenure (a claim that installs a session that
+   was not the owner) is ended by exactly one displacement report or exactly one effective
+   release, or is the current one:  started = reported + released + (owned now). *)
+Theorem C17_tenure_conservation :
+  forall ops k,
+    let '((s, p, d), r') := tenure_counts new_registry k ops in
+    r' = fst (reg_run new_registry ops) /\ (s = p + d + owned_now r' k)%nat.
+Proof. exact tenure_conservation_new. Qed.
+Print Assumptions C17_tenure_conservation.
+
+(* A release by a session that is not the current owner changes nothing, for any tuple. *)
+Theorem C17_stale_release_harmless :
+  forall ops k o,
+    let r := fst (reg_run new_registry ops) in
+    is_owner r k o = false -> forall k', lookup (release r k o) k' = lookup r k'.
+Proof. exact stale_release_harmless. Qed.
+Print Assumptions C17_stale_release_harmless.
+
+(* ... in particular the late release of a displaced session leaves the displacing one in place. *)
+Theorem C17_displaced_release_keeps_new_owner :
+  forall pre k o p,
+    let r1 := fst (reg_run new_registry pre) in
+    let r2 := fst (reg_step r1 (OClaim k o)) in
+    snd (reg_step r1 (OClaim k o)) = ROwner p ->
+    forall p', same_id p' p = true -> lookup (release r2 k p') k = Some o.
+Proof. exact displaced_release_keeps_new_owner. Qed.
+Print Assumptions C17_displaced_release_keeps_new_owner.
+
+(* A release by the owner frees the tuple and only that tuple. *)
+Theorem C17_release_by_owner :
+  forall ops k o,
+    let r := fst (reg_run new_registry ops) in
+    is_owner r k o = true ->
+    lookup (release r k o) k = None /\ forall k', k' <> k -> lookup (release r k o) k' = lookup r k'.
+Proof. exact release_by_owner. Qed.
+Print Assumptions C17_release_by_owner.
+
+(* shardFor is a function of the tuple alone, always inside the array, and depends only on the low
+   nibbles of the C-VLAN, MAC[3] and MAC[5]. *)
+Theorem C17_shard_deterministic :
+  forall k, (shard_for k < 16)%N /\
+            shard_for k = N.land (N.lxor (N.lxor (k_cvlan k) (mb k 3)) (mb k 5)) 15.
+Proof. intros k. split; [apply shard_for_lt | apply shard_for_low_bits]. Qed.
+Print Assumptions C17_shard_deterministic.
+
+(* MakeTupleKey always yields a 6-byte MAC and keeps a 6-byte MAC unchanged. *)
+Theorem C17_make_tuple_key :
+  forall s c m, length (k_mac (make_tuple_key s c m)) = 6%nat /\
+                (length m = 6%nat -> make_tuple_key s c m = mkKey s c m).
+Proof.
+  intros s c m. split; [apply pad6_length | intros H; unfold make_tuple_key; rewrite pad6_exact; auto].
+Qed.
+Print Assumptions C17_make_tuple_key.
+
+(* Callers (ipoe claimTuple, pppoe addToIndexes): a claim publishes a terminate event for the
+   previous owner exactly when that owner belongs to another protocol, and then exactly one. *)
+Theorem C17_cross_protocol_eviction :
+  forall self r k sid,
+    snd (component_claim self r k sid) =
+    match lookup r k with
+    | Some prev => if bytes_eqb (o_proto prev) self then [] else [o_sid prev]
+    | None => []
+    end.
+Proof. exact component_claim_events. Qed.
+Print Assumptions C17_cross_protocol_eviction.
+
+(* Generic: N threads running arbitrary programs of operations, each operation executed as
+   invoke; acquire the (reader/writer) lock of its cell; read the cell; compute and write back;
+   unlock; respond — with arbitrary interleaving of these small steps.  Every history of a
+   quiescent configuration is linearizable w.r.t. the sequential specification [gstep]. *)
+Theorem C17_atomic_ops_linearizable :
+  forall (L Cell Op Ret : Type) (L_eq_dec : forall a b : L, {a = b} + {a <> b})
+         (lock_of : Op -> L) (is_read : Op -> bool) (cell_step : Cell -> Op -> Cell * Ret),
+    (forall c op, is_read op = true -> fst (cell_step c op) = c) ->
+    forall s0 progs c,
+      reach L_eq_dec lock_of is_read cell_step s0 progs c -> quiescent c ->
+      linearizable L_eq_dec lock_of cell_step s0 (c_hist c).
+Proof. exact atomic_ops_linearizable. Qed.
+Print Assumptions C17_atomic_ops_linearizable.
+
+(* The exclusivity table: every complete concurrent history of Claim/Release/IsOwner/Lookup, each
+   running its Go method body under the RWMutex of shardFor(tuple), is linearizable with respect to
+   the sequential model [reg_step] (the function the correspondence check extracts and runs). *)
+Theorem C17_linearizable :
+  forall progs c, t_reach progs c -> quiescent c ->
+    exists lin : list t_entry,
+      (forall t, proj t (c_hist c) = proj t (expand lin)) /\
+      reg_legal new_registry lin /\
+      NoDup (ids lin) /\
+      (forall a r b o, before (ERes a r) (EInv b o) (c_hist c) -> before a b (ids lin)).
+Proof. exact table_ops_linearizable. Qed.
+Print Assumptions C17_linearizable.
+
+(* ---- non-vacuity ---- *)
+Definition k1 : key := mkKey 100 10 [2; 170; 187; 204; 0; 1]%N.
+Definition k2 : key := mkKey 100 10 [2; 170; 187; 204; 0; 17]%N.     (* same shard as k1 *)
+Definition oa : owner := mkOwner proto_ipoe [115; 49]%N k1.
+Definition ob : owner := mkOwner proto_pppoe [115; 50]%N k1.
+
+(* a history in which a displacement happens, the stale release is harmless, and two tuples
+   collide in one shard *)
+Example C17_sequential_nonvacuous :
+  shard_for k1 = shard_for k2 /\
+  snd (reg_run new_registry
+         [OClaim k1 oa; OClaim k2 oa; OClaim k1 ob; ORelease k1 oa; OLookup k1; OIsOwner k1 oa;
+          OIsOwner k1 ob; ORelease k1 ob; OLookup k1; OLookup k2]) =
+  [RNil; RNil; ROwner oa; RUnit; ROwner ob; RBool false; RBool true; RUnit; RNil; ROwner oa] /\
+  fst (tenure_counts new_registry k1
+         [OClaim k1 oa; OClaim k2 oa; OClaim k1 ob; ORelease k1 oa; ORelease k1 ob]) = (2, 1, 1)%nat /\
+  snd (component_claim proto_pppoe (fst (reg_run new_registry [OClaim k1 oa])) k1 [115; 50]%N) = [[115; 49]%N].
+Proof. vm_compute. repeat split; reflexivity. Qed.
+Print Assumptions C17_sequential_nonvacuous.
+
+(* a reachable quiescent configuration whose history has two overlapping claims on one tuple *)
+Example C17_linearizable_nonvacuous :
+  exists c, t_reach ex_progs c /\ quiescent c /\ c_hist c = ex_hist.
+Proof. exact ex_reachable. Qed.
+Print Assumptions C17_linearizable_nonvacuous.
